@@ -17,7 +17,7 @@
           step (lemma add_change_split in FeeProofs.v: add_change = add_change_pre followed by the top-up).
 
    API    need_w, need, sufficient, sufficientb, policy_ok, fld0, binding, placeholder_w,
-          asset_branch_pre, add_change_pre, finish_change, slack_ok,
+          asset_branch_pre, add_change_pre, finish_change, slack_ok, fee_request_honoured, build_tx6,
           judge inputs/verdict: ledger_min_fee, tx_report, judge_tx, verdict *)
 From CSL Require Import Base.Prelude Base.U64 Cbor.Head Num.Value Deposits.Deposits Builder.Totals Builder.Change
   Fees.Rational Fees.Fees Fees.TierSpec FeeSuff.FeeModel.
@@ -131,6 +131,19 @@ Section Pre.
     | None => ret (fst bg)
     end.
 End Pre.
+
+(* build_tx since /repo 0fc161c ("fix: build_tx fails when the stored fee does not honour the fee request"):
+   validate_fee first compares the fee with the request (a set_fee / set_min_fee issued after add_change does not
+   change the stored fee), then runs the guard modelled by Change.validate_fee.
+   [build_tx_legacy] = Change.build_tx is the code before that repair. *)
+Definition fee_request_honoured (s : state) : bool :=
+  match get_fee_if_set s, s_fee_request s with
+  | Some F, FeeExactly x => F =? x
+  | Some F, FeeNotLess r => r <=? F
+  | _, _ => true
+  end.
+Definition build_tx6 {O : Type} (orc : @oracle O) : @M O tx_body :=
+  bindM get (fun s => if fee_request_honoured s then build_tx orc else lift Err).
 
 (* outputs + fee field of the final state fit into outputs of the priced state + placeholder.
    (false only when a change output was added or topped up: the exact and burn paths change no output) *)
